@@ -156,11 +156,23 @@ def sweep_small_p(ctx, part, nparts):
                     if not ok1:
                         raise Fail("qrFrom rejected a field element")
                     r = x.call("ecpIsOnA", A, E, St)
-                    x.free(A)
                     n += 1
                     if bool(r) != ((xx, yy) in on):
                         e = Fail("%s: ecpIsOnA(%d,%d) = %d, equation says %s" % (label, xx, yy, r, (xx, yy) in on)); e.case = {"p": p, "a": a, "b": b}
                         raise e
+                    if (xx, yy) in on:
+                        # the same residues with a coordinate word >= p are not field elements: not a point of the curve
+                        raw = A.read()
+                        for half in (0, 1):
+                            w = int.from_bytes(raw[half * nw * x.wo:(half + 1) * nw * x.wo], "little") + p
+                            if w < 1 << (x.W * nw):
+                                A2 = x.buf(raw[:half * nw * x.wo] + w.to_bytes(nw * x.wo, "little") + raw[(half + 1) * nw * x.wo:])
+                                n += 1
+                                if x.call("ecpIsOnA", A2, E, St):
+                                    e = Fail("%s: ecpIsOnA accepts the point (%d,%d) with the %s coordinate increased by p (not below p)" % (label, xx, yy, "xy"[half])); e.case = {"p": p, "a": a, "b": b}
+                                    raise e
+                                x.free(A2)
+                    x.free(A)
         # scalar multiplication: all points x scalars 0..order+2 and a few long ones
         deep = x.call("x_ec_deep", E, ret="z"); d = x.call("x_ec_d", E, ret="z")
         for P0 in pts[:: max(1, len(pts) // 6)]:
@@ -194,7 +206,9 @@ def sweep_small_p(ctx, part, nparts):
 # binary curves y^2 + xy = x^3 + a x^2 + b over GF(2^m).  gf2Create admits only m - k >= B_PER_W, so complete small
 # curves cannot be built with this library; instead a structured subset of points (random points, their negatives and
 # doubles, the order-2 point (0, sqrt b)) is run through the same all-pairs sweep.
-BIN_CURVES = [(65, (65, 18, 0, 0), 1, 1), (97, (97, 6, 0, 0), 0, 0x1234567), (127, (127, 1, 0, 0), 1, 0xABCDEF0123), (131, (131, 8, 3, 2), 1, 5), (163, (163, 7, 6, 3), 1, 0x20A601907B8C953CA1481EB10512F78744A3205FD)]
+BIN_CURVES = [(65, (65, 18, 0, 0), 1, 1), (97, (97, 6, 0, 0), 0, 0x1234567), (127, (127, 1, 0, 0), 1, 0xABCDEF0123), (131, (131, 8, 3, 2), 1, 5), (163, (163, 7, 6, 3), 1, 0x20A601907B8C953CA1481EB10512F78744A3205FD),
+              # coefficient A neither 0 nor 1 (the general-A variants of the projective formulas)
+              (97, (97, 6, 0, 0), 0xABCDEF12345, 0x1234567), (131, (131, 8, 3, 2), 0x5A5A5A5A5A5A5A5A5A5A5, 0x77)]
 
 
 def mk_curve_2(x, m, pp, a, b):
@@ -297,9 +311,33 @@ def sweep_small_2(ctx, part, nparts):
 
 
 # ---------------------------------------------------------------- standard curves: scalar multiplication
+NIST = {
+    "p256": (2 ** 256 - 2 ** 224 + 2 ** 192 + 2 ** 96 - 1, 0x5ac635d8aa3a93e7b3ebbd55769886bc651d06b0cc53b0f63bce3c3e27d2604b,
+             (0x6b17d1f2e12c4247f8bce6e563a440f277037d812deb33a0f4a13945d898c296, 0x4fe342e2fe1a7f9b8ee7eb4a7c0f9e162bce33576b315ececbb6406837bf51f5),
+             0xffffffff00000000ffffffffffffffffbce6faada7179e84f3b9cac2fc632551),
+    "p384": (2 ** 384 - 2 ** 128 - 2 ** 96 + 2 ** 32 - 1, 0xb3312fa7e23ee7e4988e056be3f82d19181d9c6efe8141120314088f5013875ac656398d8a2ed19d2a85c8edd3ec2aef,
+             (0xaa87ca22be8b05378eb1c71ef320ad746e1d3b628ba79b9859f741e082542a385502f25dbf55296c3a545e3872760ab7, 0x3617de4a96262c6f5d9e98bf9292dc29f8f41dbd289a147ce9da3113b5f0b8c00a60b1ce1d7e819d7a431d7c90ea0e5f),
+             0xffffffffffffffffffffffffffffffffffffffffffffffffc7634d81f4372ddf581a0db248b0a77aecec196accc52973)}
+_NIST_OK = {}
+
+
 def std_curve(x, name):
     """(E, F, no, n, model, base, order)"""
     import pyref.bign as RB
+    if name in NIST or name.endswith("sq"):
+        # primes that are not of the form 2^k - c: gfpCreate keeps their elements in Montgomery form
+        p, b, base, q = NIST[name[:4]]
+        a = p - 3
+        if name.endswith("sq"):
+            b, base, q = 9, None, None        # B a square (ecpSWU expects a quadratic residue); the group order is not needed there
+        C = EC.CurveP(p, a, b)
+        if name not in _NIST_OK:
+            if base is not None and (not C.is_on(base) or C.mul(q, base) is not None):
+                raise RuntimeError("constants of %s are wrong" % name)
+            _NIST_OK[name] = True
+        no = (p.bit_length() + 7) // 8
+        E, F, no, n = mk_curve_p(x, p, a, b, no, base, q, 1) if base is not None else mk_curve_p(x, p, a, b, no)
+        return E, F, no, n, C, base, q
     if name.startswith("bign"):
         l = int(name[4:])
         prm = RB.PARAMS96 if l == 96 else RB.PARAMS[l]
@@ -377,7 +415,7 @@ def run_mul(ctx, c):
 
 
 S_MUL = st.fixed_dictionaries({
-    "curve": st.sampled_from(["bign128", "bign192", "bign256", "bign96"]), "seed": st.binary(min_size=1, max_size=4).map(bytes.hex),
+    "curve": st.sampled_from(["bign128", "bign192", "bign256", "bign96", "p256", "p384"]), "seed": st.binary(min_size=1, max_size=4).map(bytes.hex),
     "k": st.one_of(st.sampled_from([["z"], ["one"], ["two"], ["qm1"], ["q"], ["qp1"], ["2q"], ["max"]]), int_spec(9)),
     "m": st.sampled_from([0, 0, 1, 2, 3, 5, 9]), "k2": int_spec(8), "pt": st.sampled_from(["base", "mult", "neg"]), "cancel": st.sampled_from([0, 0, 1])})
 
@@ -410,7 +448,7 @@ def run_swu(ctx, c):
     ctx.sample(c)
 
 
-S_SWU = st.fixed_dictionaries({"curve": st.sampled_from(["bign128", "bign192", "bign256"]),
+S_SWU = st.fixed_dictionaries({"curve": st.sampled_from(["bign128", "bign192", "bign256", "p256sq", "p384sq"]),
                                "a": st.one_of(st.sampled_from([["z"], ["one"], ["pm1"]]), int_spec(8))})
 
 
@@ -432,7 +470,7 @@ def replay_override(ctx, test, case):
 def tests(tier):
     return [
         Sweep("small_p", sweep_small_p, 16, CFG),
-        Sweep("bin_curves", sweep_small_2, 5, CFG + (("w32",) if "asan" in CFG else ())),
+        Sweep("bin_curves", sweep_small_2, 7, CFG + (("w32",) if "asan" in CFG else ())),
         Test("mul", S_MUL, run_mul, {"quick": 400, "thorough": 8000}, CFG),
         Test("swu", S_SWU, run_swu, {"quick": 300, "thorough": 6000}, CFG),
     ]
